@@ -46,6 +46,11 @@ type Env struct {
 
 // NewEnv creates the environment; alloc may add accounts (e.g. contracts) to the three funded keys.
 func NewEnv(config *params.ChainConfig, alloc core.GenesisAlloc) *Env {
+	return NewEnvDifficulty(config, alloc, big.NewInt(131072))
+}
+
+// NewEnvDifficulty is NewEnv with a chosen genesis difficulty (= genesis total difficulty).
+func NewEnvDifficulty(config *params.ChainConfig, alloc core.GenesisAlloc, difficulty *big.Int) *Env {
 	e := &Env{Config: config, GenDB: aquadb.NewMemDatabase(), Ctx: context.Background()}
 	ga := core.GenesisAlloc{}
 	for _, h := range keyHex {
@@ -61,7 +66,7 @@ func NewEnv(config *params.ChainConfig, alloc core.GenesisAlloc) *Env {
 	for a, acc := range alloc {
 		ga[a] = acc
 	}
-	e.Gspec = &core.Genesis{Config: config, GasLimit: 4712388, Difficulty: big.NewInt(131072), Alloc: ga}
+	e.Gspec = &core.Genesis{Config: config, GasLimit: 4712388, Difficulty: new(big.Int).Set(difficulty), Alloc: ga}
 	e.Genesis = e.Gspec.MustCommit(e.GenDB)
 	e.Signer = types.NewEIP155Signer(config.ChainId)
 	return e
